@@ -7,6 +7,9 @@ The functions generated from `EoN/analytic.py` by `harness/py2lean.py` (`Gen/Ana
 hand-written right-hand sides of `Model/ODE.lean`, for every state and parameter.
 State vectors are packed the way the solvers pack them (`np.concatenate` / `np.array`).
 -/
+set_option linter.unusedTactic false
+set_option linter.unreachableTactic false
+set_option linter.unusedSimpArgs false
 namespace GenEq
 open Gen ODE
 
